@@ -7,6 +7,8 @@ package driver
 //
 //	<id> <up0> <tok> ...
 //
+// DN DM: good first message, the connection breaks when GetSupportedVersion / SetProtocolVersion arrives; DK Dk DV DJ:
+// negotiation stalls while the reader keeps talking (see serveBrokenNegotiation).
 // tokens (same as oracle/c15): DR DS DZ DB DH DC DE  dial outcomes (refused, accepted+silent [DZ: silent
 // until the device's 60 s read timeout], bad
 // handshake, handshake then dropped, closed normally by the device, established and staying)
@@ -180,6 +182,7 @@ const (
 	c15MsgSetReaderConfigResp     = 13
 	c15MsgCloseConnection         = 14
 	c15MsgGetSupportedVersion     = 46
+	c15MsgSetProtocolVersion      = 47
 	c15MsgGetSupportedVersionResp = 56
 	c15MsgROAccessReport          = 61
 	c15MsgKeepAlive               = 62
@@ -449,6 +452,10 @@ func (r *c15Run) serve(cn *c15Conn, wantSRC int) {
 		signal("dropped")
 		return
 	}
+	if strings.ContainsRune("KkVJNM", rune(cn.mode)) {
+		r.serveBrokenNegotiation(cn, signal)
+		return
+	}
 	requests, srcs, closing := 0, 0, false
 	for {
 		typ, id, _, err := c15ReadFrame(c)
@@ -523,6 +530,111 @@ func (r *c15Run) serve(cn *c15Conn, wantSRC int) {
 		case c15MsgKeepAliveAck:
 		default:
 			cn.write(c15Frame(c15MsgErrorMessage, id, c15Status(109)))
+		}
+	}
+}
+
+// serveBrokenNegotiation: the reader has sent its connection-success event; version negotiation
+// never completes.
+//
+//	N  the connection breaks when GetSupportedVersion arrives          M  ... when SetProtocolVersion arrives
+//	K  GetSupportedVersion is never answered while the reader keeps talking (a KeepAlive every 250 ms)
+//	k  the same, talking in empty ROAccessReports                      V  SetProtocolVersion is never answered, KeepAlives
+//	J  half a GetSupportedVersionResponse, then silence
+//
+// The stalling modes end when the DEVICE gives the attempt up (its budget: the client timeout
+// keepAliveInterval*maxMissedKAs per negotiation step); "fail" is logged then.
+func (r *c15Run) serveBrokenNegotiation(cn *c15Conn, signal func(string)) {
+	c := cn.c
+	stopTalk := make(chan struct{})
+	defer close(stopTalk)
+	talk := func(typ int) {
+		go func() {
+			tk := time.NewTicker(250 * time.Millisecond)
+			defer tk.Stop()
+			for id := uint32(1000); ; id++ {
+				select {
+				case <-stopTalk:
+					return
+				case <-tk.C:
+					if _, err := cn.write(c15Frame(typ, id, nil)); err != nil {
+						return
+					}
+				}
+			}
+		}()
+	}
+	talking := false
+	requests := 0
+	var stalledAt time.Time
+	c.SetReadDeadline(time.Now().Add(100 * time.Second))
+	for {
+		typ, id, _, err := c15ReadFrame(c)
+		if err != nil {
+			if !stalledAt.IsZero() {
+				// how long the device sat in the stalled negotiation before it gave the connection up
+				// (a marker for the evidence: 40 s = onConnect's own reset, 60 s = the client time-out)
+				r.logf("~gaveup" + strconv.Itoa(int(time.Since(stalledAt).Round(time.Second)/time.Second)))
+			}
+			if requests == 0 {
+				// the device ended the connection right after the connection event, before it asked
+				// anything (a client that had been closed beforehand): not this outcome's doing
+				r.logf("norm")
+				signal("early")
+				return
+			}
+			r.logf("fail")
+			signal("dropped")
+			return
+		}
+		if typ != c15MsgKeepAliveAck {
+			requests++
+		}
+		stall := false
+		switch typ {
+		case c15MsgGetSupportedVersion:
+			switch cn.mode {
+			case 'N':
+				time.Sleep(15 * time.Millisecond) // the onConnect started by the connection event has made its report
+				r.logf("fail")
+				cn.dropped.Store(true)
+				c.Close()
+				signal("dropped")
+				return
+			case 'M', 'V':
+				// current version 1, highest supported 2: the client goes on to SetProtocolVersion
+				cn.write(c15Frame(c15MsgGetSupportedVersionResp, id, append([]byte{1 << 5, 2 << 5}, c15Status(0)...)))
+			case 'J':
+				f := c15Frame(c15MsgGetSupportedVersionResp, id, append([]byte{2 << 5, 2 << 5}, c15Status(0)...))
+				cn.write(f[:13])
+			case 'K':
+				stall = true
+			case 'k':
+				stall = true
+			}
+		case c15MsgSetProtocolVersion:
+			if cn.mode == 'M' {
+				time.Sleep(15 * time.Millisecond)
+				r.logf("fail")
+				cn.dropped.Store(true)
+				c.Close()
+				signal("dropped")
+				return
+			}
+			stall = true
+		case c15MsgCloseConnection:
+			r.logf("~closeconn")
+		}
+		if (stall || cn.mode == 'J') && stalledAt.IsZero() {
+			stalledAt = time.Now()
+		}
+		if stall && !talking {
+			talking = true
+			if cn.mode == 'k' {
+				talk(c15MsgROAccessReport)
+			} else {
+				talk(c15MsgKeepAlive)
+			}
 		}
 	}
 }
@@ -718,15 +830,23 @@ func c15RunScript(id string, up0 bool, toks []string) string {
 		case <-r.captured:
 			// onConnect sits in the slow Up call: its SetReaderConfig comes after the release
 			what = "src"
-		case <-time.After(map[bool]time.Duration{false: map[bool]time.Duration{false: 6 * time.Second, true: 80 * time.Second}[tok[1] == 'Z' || tok[1] == 'P'],
+		case <-time.After(map[bool]time.Duration{false: map[bool]time.Duration{false: 6 * time.Second, true: 80 * time.Second}[strings.ContainsRune("ZPKkVJ", rune(tok[1]))],
 			true: 1500 * time.Millisecond}[want == 2 && tok[1] == 'E']):
 			what = "timeout"
-			if !(want == 2 && tok[1] == 'E') {
+			if strings.ContainsRune("ZPKkVJ", rune(tok[1])) {
+				// the device sits in this one attempt beyond its own budget (read timeout / negotiation
+				// step timeout, keepAliveInterval*maxMissedKAs): nothing is retried
+				r.logf("!attemptstuck")
+				abort = true
+			} else if !(want == 2 && tok[1] == 'E') {
 				r.logf("!steptimeout")
 			}
 		}
 		if want == 2 && what != "early" {
 			r.stale = false
+		}
+		if tok[1] == 'N' || tok[1] == 'M' {
+			r.stale = true // the onConnect of this connection still has its SetReaderConfig to send
 		}
 		switch what {
 		case "early":
